@@ -35,6 +35,11 @@ KERNELS = [
     K("k_kek_len_nonce_get", "_gkdi.py", "GroupKeyEnvelope.get_kek", ("callarg", "kdf", 0, 4), [], Z, props=("C03",)),
     K("k_kek_len_nonce_new", "_gkdi.py", "GroupKeyEnvelope.new_kek", ("callarg", "kdf", 0, 4), [], Z, props=("C03",)),
     K("k_kek_len_pub", "_gkdi.py", "compute_kek", ("callarg", "kdf", 0, 4), [], Z, props=("C03",)),
+    # compute_kek (DH): the peer's public value must be a non-degenerate group element (repair of D16). The parameter
+    # comparison just before it is a tuple comparison, which the kernel translator does not express: hand-written in
+    # Model/Kek.v (dh_params_mismatch) and tied to the source by the flow tie of compute_kek.
+    K("k_dh_pub_bad", "_gkdi.py", "compute_kek", ("if_mentions", "field_order - 1", 0),
+      [("dh_pub_key_public_key", Z), ("dh_pub_key_field_order", Z)], B, props=("C03", "C04")),
     # FFCDHKey.unpack refuses data shorter than the three key_length-octet integers it announces (bounds key_length by the input size)
     K("k_ffcdhkey_short", "_gkdi.py", "FFCDHKey.unpack", ("if_mentions", "key_length", 0),
       [("len_view", Z), ("key_length", Z)], B, props=("C05", "C11", "C03")),
